@@ -7,7 +7,7 @@ from . import pcommon as pc
 def run(tier):
     ck = C.Check("C04", tier)
     failed = ck.proofs()
-    n_g = 70 if tier == "quick" else 1500
+    n_g = 70 if tier == "quick" else 900
     res = P.run_family(ck, n_g, 0, p_err=0.2, want_hist=False, conflict_bias=0.5)
     st = {"grammars": len(res), "conflicting": 0, "clean": 0, "refused_accept_clash": 0, "duplicate_alt": 0}
     nontrivial = set()
